@@ -62,7 +62,7 @@ Print Assumptions c09_offset_full_range.
 From Utp Require Import Wire.Header Rtt.Rtte Mtu.SegSizes Rx.Rx Tx.Ring Tx.Segments Conn.Recovery Conn.Msg
   Conn.VSockRec Conn.VSock Conn.VSockRun Conn.VObs Conn.VSock_Inv Conn.C09_Pred Conn.C09_Shift
   Conn.C09_ShiftProofsSeq Conn.C09_ShiftProofsSeg Conn.C09_ShiftProofsRec Conn.C09_ShiftProofsTx
-  Conn.C09_ShiftProofsIn Conn.C09_ShiftProofsPoll Conn.C09_ShiftProofsEx.
+  Conn.C09_ShiftProofsIn Conn.C09_ShiftProofsPoll Conn.C09_ShiftProofsGuard Conn.C09_ShiftProofsEx.
 
 (* layer 0: the comparison *)
 Theorem c09_seq_sub_shift : forall d a b, cmp_ok a b = true ->
@@ -173,6 +173,13 @@ Theorem c09_model_runs_shift_ok :
              c09_shift_ok da db dc (ftrace cci s ops) (ftrace cci s2 (map (shift_op da db) ops)) = true.
 Proof. exact (@model_runs_shift_ok). Qed.
 
+(* the guard does not depend on the labelling: the relabelled scenario is inside it as well *)
+Theorem c09_guard_trace_shift :
+  forall (da db dc : Z) (CC : Type) (cci : cc_iface CC) (ops : list vop) (s : vsock CC),
+  c09_guard_trace cci s ops = true ->
+  c09_guard_trace cci (shift_vsock da db dc s) (map (shift_op da db) ops) = true.
+Proof. exact (@guard_trace_shift). Qed.
+
 (* the fingerprint-level guard of the metamorphic check judges a trace and its relabelling alike *)
 Theorem c09_within_tol_shift : forall (da db dc tol : Z) (tr : list fstep),
   c09_within_tol tol (map (shift_fstep da db dc) tr) = c09_within_tol tol tr.
@@ -209,6 +216,7 @@ Print Assumptions c09_ftrace_shift.
 Print Assumptions c09_model_trace_shift_ok.
 Print Assumptions c09_vsock_new_shift.
 Print Assumptions c09_model_runs_shift_ok.
+Print Assumptions c09_guard_trace_shift.
 Print Assumptions c09_within_tol_shift.
 Print Assumptions c09_guard_satisfiable.
 Print Assumptions c09_shift_outside_guard_refuted.
